@@ -1515,3 +1515,24 @@ M("C12-benign-index-declared-outside", "C12", "src/interrogatedb/interrogateData
   "    while (num_types > 0) {\n      TypeIndex index;\n      InterrogateType type(def);\n",
   "    TypeIndex index;\n    while (num_types > 0) {\n      InterrogateType type(def);\n",
   benign=True)
+
+# ---------------------------------------------------------------- R13.6 (seed S6-C13)
+M("C13-merge-looks-up-scoped-name", "C13", "src/interrogatedb/interrogateDatabase.cxx",
+  "      ni = types_by_name.find(other_type.get_true_name());", "      ni = types_by_name.find(other_type.get_scoped_name());",
+  expect="R13.6|merge_from|types_by_name.find")
+M("C13-merge-table-keyed-by-plain-name", "C13", "src/interrogatedb/interrogateDatabase.cxx",
+  "      types_by_name[type.get_true_name()] = (*ti).first;", "      types_by_name[type.get_name()] = (*ti).first;",
+  expect="R13.6|merge_from|types_by_name.operator[]")
+M("C13-benign-merge-key-local", "C13", "src/interrogatedb/interrogateDatabase.cxx",
+  "      ni = types_by_name.find(other_type.get_true_name());", "      ni = types_by_name.find(std::string(other_type.get_true_name()));",
+  benign=True)
+
+# ---------------------------------------------------------------- R11.9 (seed S6-C11)
+M("C11-downcast-base-by-stale-counter", "C11", "src/interrogate/interfaceMaker.cxx",
+  "      TypeIndex base_type_index = itype.get_derivation(di);\n      const InterrogateType &base_type = idb->get_type(base_type_index);\n      record_function(base_type, itype.derivation_get_downcast(di));",
+  "      TypeIndex base_type_index = itype.get_derivation(mi);\n      const InterrogateType &base_type = idb->get_type(base_type_index);\n      record_function(base_type, itype.derivation_get_downcast(di));",
+  expect="R11.9|InterfaceMaker::record_object|itype.get_derivation(mi)")
+M("C11-benign-cast-loop-own-counter", "C11", "src/interrogate/interfaceMaker.cxx",
+  "  for (mi = 0; mi < num_casts; mi++) {\n    function = record_function(itype, itype.get_cast(mi));",
+  "  for (int ki = 0; ki < num_casts; ki++) {\n    function = record_function(itype, itype.get_cast(ki));",
+  benign=True)
